@@ -207,6 +207,7 @@ def _step(m, op, tg=None):
     if before != m_obs(m):
         return None, 0, "build-mismatch", None, [Viol("state-rebuild-mismatch", f"textgrid rebuilt from {m} observes as {before}")]
     exp, widened = m_apply(m, op)
+    held = list(tg.tiers)       # the caller's handles on the tiers: after a refused call every name still maps to the SAME object
     st, r, out = call(_apply, tg, op)
     after = snap_tg(tg)
     tag = f"{op} on names={before[0]} span=({before[1]},{before[2]})"
@@ -217,6 +218,9 @@ def _step(m, op, tg=None):
             return None, 1, "!", None, [Viol("wrong-exception", f"{tag}: raised {r!r}, expected {exp}")]
         if after != before:
             return None, 1, "!", None, [Viol("changed-on-failure", f"{tag}: raised {r!r} but the textgrid changed: names {after[0]} span ({after[1]},{after[2]})")]
+        if len(tg.tiers) != len(held) or any(a is not b for a, b in zip(tg.tiers, held)):
+            return None, 1, "!", None, [Viol("tier-objects-exchanged-on-failure", f"{tag}: raised {r!r}; the textgrid holds equal-valued but DIFFERENT tier objects now: "
+                                                                                    f"a tier the caller obtained before the call is no longer the one the textgrid uses")]
         return None, 1, op[0] + ":" + (exp if exp != "*" else "absent"), (op[0], exp, len(m[0])), []
     if st == "exc":
         return None, 1, "!", None, [Viol("unexpected-exception:" + type(r).__name__, f"{tag}: raised {r!r}; the list model allows the operation")]
